@@ -616,6 +616,69 @@ func (en *Engine) IdleAfterWork(n, q, k int) {
 	en.Shutdown(r, false)
 }
 
+// ---------------------------------------------------------------- C07: shutdown after a task ended its goroutine
+
+// GoexitShutdown: a task that ends with runtime.Goexit (testing.T.FailNow inside a task does that) is neither a
+// return nor a panic: the LTS has no label for it, so the history goes to the MONITORS only. Whatever the lane does
+// about the lost goroutine (nothing, as the pinned code: one worker fewer; or a replacement worker), C07 still
+// demands that Wait() does not return while a started task is inside Start(), that nothing starts afterwards and
+// that no lane goroutine is left. k Goexit tasks first (k < n, so a worker survives in every implementation), then
+// a gated task on lane `lane`, cancel, Wait() begun while the gated task is still running, release.
+// A gated task that is never started is not judged here (a lane may have lost the worker it needed).
+func (en *Engine) GoexitShutdown(n, q, k, lane int) {
+	const fam = "goexit"
+	name := sname(fam, n, q, k, lane)
+	if en.Skip(fam, name) {
+		return
+	}
+	r := en.New(fam, name, n, q)
+	defer en.Finish(fam, r)
+	r.ForceM = true
+	r.Start(en.longTO())
+	for j := 0; j < k; j++ {
+		g := r.NewTask(false, 0, false)
+		g.goexit = true
+		if res := r.Push(g, j%n); res != "ok" {
+			en.Shutdown(r, false)
+			return
+		}
+		if !WaitUntil(LiveBound, func() bool { return r.Finished(g) }) {
+			en.Shutdown(r, false)
+			return
+		}
+		time.Sleep(2 * time.Millisecond) // let the goroutine unwind (deferred calls of the lane run now)
+	}
+	long := r.NewTask(true, 0, false)
+	if res := r.Push(long, lane%n); res != "ok" || !WaitUntil(time.Second, func() bool { return r.Started(long) }) {
+		en.unreached["goexit/long-task-running"]++
+		en.Shutdown(r, false)
+		return
+	}
+	en.reached["goexit/long-task-running"]++
+	r.Cancel(en.ctxErr())
+	done := make(chan struct{})
+	go func() {
+		r.L.Wait()
+		r.mu.Lock()
+		early := r.cur > 0
+		r.mu.Unlock()
+		if early {
+			r.markWaited() // recorded while the task is inside Start(): the after-wait monitor rejects the history
+		}
+		close(done)
+	}()
+	select {
+	case <-done:
+	case <-time.After(30 * time.Millisecond):
+	}
+	long.Release()
+	select {
+	case <-done:
+	case <-time.After(LiveBound):
+	}
+	en.Shutdown(r, true)
+}
+
 // ---------------------------------------------------------------- C07: back-to-back New -> push -> cancel -> Wait on one P
 
 // BackToBack: with GOMAXPROCS(1) and nothing blocking in between: New, k pushes that fit the buffers,
